@@ -76,6 +76,7 @@ def dump_cases(draw):
         spec = dict(spec, doc_type='any')
         v = draw(gen.vspec_for(spec, 'any', hard=True, finite=True))
     return {'kind': 'dump', 'model': spec, 'value': v, 'json': draw(st.booleans()),
+            'share': draw(st.integers(0, 2)) == 0,
             'indent': draw(st.sampled_from([None, None, 0, 2, 4, 7])),
             'ascii': draw(st.booleans())}
 
@@ -238,12 +239,23 @@ def check_dump(case, ctx):
             kw['ensure_ascii'] = False
     else:
         dumps, dump = yatiml.dumps_function(*classes), yatiml.dump_function(*classes)
+    if case.get('share'):
+        # the same list / dict / object twice: YAML writes an alias, the JSON
+        # dumpers refuse - whatever happens, it happens for every sink
+        from yv.props import c05
+        from yv.common import is_gen_obj as _obj
+        if c05.share_in(value):
+            ctx.count('dump_value_with_shared_object')
+        elif _obj(value) or isinstance(value, (list, dict)):
+            value = [value, value]
+            ctx.count('dump_value_with_shared_object')
     try:
         want = dumps(value, **kw)
     except Exception as e:
         ctx.count('dumps_raises_' + type(e).__name__)
         ctx.sample('dumps_raises_' + type(e).__name__,
                    {'error': str(e)[:200], 'value': canon(value), 'model': spec})
+        check_sinks_raise(case, ctx, dump, value, kw, e, spec)
         return
     try:
         want_bytes = want.encode('utf-8')
@@ -289,6 +301,36 @@ def check_dump(case, ctx):
                         'dump to %s wrote %r\n  dumps returned %r\n  options: %s json=%s\n  value: %s\n  model: %s'
                         % (sink_kind, got, want_bytes, kw, case['json'], canon(value), spec))
             return
+
+
+def check_sinks_raise(case, ctx, dump, value, kw, err, spec):
+    """dumps raised `err`: dump must raise the same exception class to every sink."""
+    d = scratch()
+    for sink_kind in ('filename', 'Path', 'text_stream', 'StringIO'):
+        path = os.path.join(d, 'outr_%s' % sink_kind)
+        try:
+            if sink_kind == 'filename':
+                dump(value, path, **kw)
+            elif sink_kind == 'Path':
+                dump(value, pathlib.Path(path), **kw)
+            elif sink_kind == 'text_stream':
+                with open(path, 'w', encoding='utf-8', newline='') as f:
+                    dump(value, f, **kw)
+            else:
+                dump(value, io.StringIO(), **kw)
+        except Exception as e2:
+            if type(e2) is not type(err):
+                ctx.finding('dump', '%s:raises_other:%s_vs_%s' % (sink_kind, type(err).__name__, type(e2).__name__),
+                            'dumps raised %s: %s\n  dump to %s raised %s: %s\n  options: %s json=%s\n  value: %s\n  model: %s'
+                            % (type(err).__name__, err, sink_kind, type(e2).__name__, e2, kw, case['json'],
+                               canon(value), spec))
+                return
+            continue
+        ctx.finding('dump', '%s:no_error_but_dumps_raises:%s' % (sink_kind, type(err).__name__),
+                    'dumps raised %s: %s\n  but dump to %s succeeded\n  options: %s json=%s\n  value: %s\n  model: %s'
+                    % (type(err).__name__, err, sink_kind, kw, case['json'], canon(value), spec))
+        return
+    ctx.count('dump_raises_like_dumps')
 
 
 def phases(tier):
